@@ -26,7 +26,7 @@ import (
 // with the explicit "let the timers fire" op.
 
 const (
-	xRetry  = 400 * time.Millisecond
+	xRetry  = 1000 * time.Millisecond
 	xSettle = 12 * time.Millisecond
 )
 
@@ -284,6 +284,7 @@ func exploreGen(r *rand.Rand, idx int, thorough bool) interface{} {
 	inflight := map[uint64]int{} // generator's belief, only to make mostly-meaningful ops
 	timers := 0
 	waits := 0
+	infoAll := true
 	for i := 0; i < n; i++ {
 		// now and then: the remove / re-add pattern around a pending retry or a running probe
 		if i > 0 && r.Intn(14) == 0 {
@@ -314,6 +315,10 @@ func exploreGen(r *rand.Rand, idx int, thorough bool) interface{} {
 			}
 			c.Ops = append(c.Ops, xOp{Kind: "update", Jobs: without}, xOp{Kind: "update", Jobs: with}, xOp{Kind: "get", Hash: h})
 			if waits < 2 {
+				if !infoAll {
+					c.Ops = append(c.Ops, xOp{Kind: "jobinfo", Cfg: []string{"job0", "job1", "job2"}})
+					infoAll = true
+				}
 				c.Ops = append(c.Ops, xOp{Kind: "timers"})
 				waits++
 				timers = 0
@@ -329,9 +334,8 @@ func exploreGen(r *rand.Rand, idx int, thorough bool) interface{} {
 				}
 			}
 			c.Ops = append(c.Ops, xOp{Kind: "jobinfo", Cfg: have})
-			if r.Intn(2) == 0 {
-				timers++
-			}
+			infoAll = len(have) == len(cfg) && len(cfg) == 3
+			timers++
 			continue
 		}
 		switch k := r.Intn(12); {
@@ -369,6 +373,12 @@ func exploreGen(r *rand.Rand, idx int, thorough bool) interface{} {
 			}
 			c.Ops = append(c.Ops, xOp{Kind: "done", Hash: h, OK: ok, Scraped: int64(r.Intn(500)), Total: int64(500 + r.Intn(500))})
 		case k == 10 && waits < 2 && timers > 0:
+			if !infoAll {
+				// a retry that fires while its job still has no client fails at once and re-arms itself with a fuse of
+				// REAL time: the history would no longer be a function of its operations. The clients come back first.
+				c.Ops = append(c.Ops, xOp{Kind: "jobinfo", Cfg: []string{"job0", "job1", "job2"}})
+				infoAll = true
+			}
 			c.Ops = append(c.Ops, xOp{Kind: "timers"})
 			waits++
 			timers = 0
